@@ -90,3 +90,28 @@ Proof.
   clear -Hag. induction Hag as [|s t ss ts Hst _ IH]; [reflexivity|]. cbn [map]. rewrite IH, (agree_code s t Hst). reflexivity.
 Qed.
 Print Assumptions lex_agrees_code.
+
+(* ---------- Lua.get_token_count on the model's tokens = the counting rule on the reference tokens *)
+Lemma kw_lower_sweep : forallb (fun k => zlist_eqb (map (fun c => if (65 <=? c) && (c <=? 90) then c + 32 else c) k) k) spec_keywords = true.
+Proof. vm_compute. reflexivity. Qed.
+
+Lemma token_weight_agree s t : agree s t -> In (s_raw s) spec_keywords \/ s_kind s <> SKeyword ->
+  token_weight t = spec_token_weight_e s.
+Proof.
+  intros H Hkw. destruct (agree_fields s t H) as (Hk & _ & _ & Hf).
+  unfold token_weight, is_free_token, spec_token_weight_e, spec_token_weight. rewrite Hk.
+  destruct (s_kind s) eqn:K; cbn [kind_of]; try reflexivity.
+  - (* number *) destruct Hf as [Hd _]. rewrite Hd. unfold mem_byte. reflexivity.
+  - (* keyword *)
+    rewrite Hf. destruct Hkw as [Hin|N]; [|congruence].
+    pose proof kw_lower_sweep as Sw. rewrite forallb_forall in Sw. specialize (Sw _ Hin). apply zlist_eqb_eq in Sw. rewrite Sw.
+    unfold mem_bytes, free_keywords. cbn [existsb]. rewrite !orb_false_r.
+    destruct (zlist_eqb (s_raw s) (bs_ "local") || zlist_eqb (s_raw s) (bs_ "end")) eqn:E;
+      change [108; 111; 99; 97; 108] with (bs_ "local"); change [101; 110; 100] with (bs_ "end"); rewrite E; reflexivity.
+  - (* symbol *)
+    rewrite Hf. unfold mem_bytes, free_symbols. cbn [existsb]. rewrite !orb_false_r.
+    change [58] with (bs_ ":"); change [46] with (bs_ "."); change [41] with (bs_ ")"); change [93] with (bs_ "]");
+      change [125] with (bs_ "}").
+    destruct (zlist_eqb (s_raw s) (bs_ ":") || zlist_eqb (s_raw s) (bs_ ".") || zlist_eqb (s_raw s) (bs_ ")")
+              || zlist_eqb (s_raw s) (bs_ "]") || zlist_eqb (s_raw s) (bs_ "}")); reflexivity.
+Qed.
